@@ -5,10 +5,10 @@
 (* and just after (t1, rounded up) every call of the real code.                                 *)
 (*                                                                                            *)
 (* Alphabet, per trace (every call event carries ip, t0, t1):                                   *)
-(*   Cfg    [thr, perm, win, ban, bld, burst, rate, mS, mE, slack, aTol, var]   thresholds; window, *)
+(*   Cfg    [thr, perm, win, ban, bld, burst, rate, mS, mE, slack, aTol]   thresholds; window,      *)
 (*          ban and blacklist durations in ms AS CONFIGURED IN THE REAL OBJECTS; rate in tokens  *)
 (*          per second; safety margins in ms; rate slack in milli-tokens; aTol = how much earlier *)
-(*          than logged an Async run may have happened (free-running logs); var = variant tag    *)
+(*          than logged an Async run may have happened (free-running logs)                       *)
 (*   Hs     [kind, res, cred]   one HandleHandshake call: kind Bad|Good|Anon, res =              *)
 (*          "bl" (refused: blacklisted) | "ban" (refused: too many failures) | "rate" (refused:  *)
 (*          limiter) | "fail" (credentials checked and rejected) | "ok"; cred = number of        *)
@@ -17,7 +17,10 @@
 (*   Take   [ok]                RateLimiter.AllowIP asked directly                                *)
 (*   Async  [what]              a spawned `go UnbanIP` ("unban") / `go RemoveFromBlacklist`        *)
 (*                              ("unbl") ran now (only used to name the history shape)            *)
-(*   MUnban, MUnbl, Blk [perm], Wl [on], Clean [what], Tick      operator actions, clean-up runs  *)
+(*   MUnban, MUnbl [form], Blk [perm, form], Wl [on, form], Clean [what], Tick   operator actions   *)
+(*          and clean-up runs; form = "ip" (entry is the address itself) | "net" (a CIDR range      *)
+(*          containing it) | "other" (a range not containing it)                                    *)
+(*   Reload                     the IPManager was replaced by a fresh one over the same storage     *)
 (*                                                                                            *)
 (* Clauses (detail = history shape):                                                            *)
 (*   BanHolds        an answer "not banned" whose call started >= mS after a failing handshake    *)
@@ -28,7 +31,8 @@
 (*                   been the thr-th inside the window (margins the other way, successes           *)
 (*                   ignored) and whose ban could still run; judged at the end of the trace         *)
 (*   BlacklistHolds  a not-whitelisted address passes the blacklist gate inside the period of the   *)
-(*                   operator's latest blacklist order                                             *)
+(*                   operator's latest blacklist order for an entry (exact or range) covering it -  *)
+(*                   on whichever manager instance answers, also after a Reload                     *)
 (*   GateOrder       a handshake refused by a gate made a credential-store call                     *)
 (*   RateBound       the admitted anonymous registrations whose call brackets lie inside [a, b]     *)
 (*                   number at most burst + rate * (b - a) (+ slack milli-tokens for the            *)
@@ -45,19 +49,24 @@ VARIABLES cfg,
           lastClean,          \* ip -> t1 of the last clean-up run of the protector (-1: none)
           ob,        \* ip -> set of obligations [from, to, perm, born]
           aU, aL,    \* ip -> t1 of asynchronous unban / un-blacklist runs
-          blo, wlst, \* ip -> operator's latest blacklist order [k, from, to, born]; whitelisted?
+          blo, wlst, \* ip -> per entry form ("ip" exact address, "net" range containing it): the operator's
+                     \*       latest blacklist order [k, from, to, born, end]; whitelisted through that form?
+          lastReload,\* t1 of the last Reload (a fresh IPManager over the same storage), -1: none
           adm,       \* ip -> admitted anonymous registrations [t0, t1]
           refs       \* ip -> answers "banned" [t0, t1], justified at End
-vars == <<l, viol, cfg, fs, sf, lastSucc, lastMU, lastClean, ob, aU, aL, blo, wlst, adm, refs>>
+vars == <<l, viol, cfg, fs, sf, lastSucc, lastMU, lastClean, ob, aU, aL, blo, wlst, lastReload, adm, refs>>
 
 NoCfg == [thr |-> 0]
-NoBl == [k |-> "none", from |-> 0, to |-> 0, born |-> 0]
+NoBl == [k |-> "none", from |-> 0, to |-> 0, born |-> 0, end |-> 0]
+FORMS == {"ip", "net"}       \* "other" = an entry that does not cover the address: no demand follows from it
+NoBls == [f \in FORMS |-> NoBl]
+NoWls == [f \in FORMS |-> FALSE]
 Each(v) == [i \in IPS |-> v]
 Reset == /\ cfg' = NoCfg /\ fs' = Each(<<>>) /\ sf' = Each(<<>>) /\ lastSucc' = Each(-1) /\ lastMU' = Each(-1) /\ lastClean' = Each(-1)
-         /\ ob' = Each({}) /\ aU' = Each(<<>>) /\ aL' = Each(<<>>) /\ blo' = Each(NoBl) /\ wlst' = Each(FALSE)
+         /\ ob' = Each({}) /\ aU' = Each(<<>>) /\ aL' = Each(<<>>) /\ blo' = Each(NoBls) /\ wlst' = Each(NoWls) /\ lastReload' = -1
          /\ adm' = Each(<<>>) /\ refs' = Each(<<>>)
 Init == /\ l = 1 /\ viol = {} /\ cfg = NoCfg /\ fs = Each(<<>>) /\ sf = Each(<<>>) /\ lastSucc = Each(-1) /\ lastMU = Each(-1) /\ lastClean = Each(-1)
-        /\ ob = Each({}) /\ aU = Each(<<>>) /\ aL = Each(<<>>) /\ blo = Each(NoBl) /\ wlst = Each(FALSE)
+        /\ ob = Each({}) /\ aU = Each(<<>>) /\ aL = Each(<<>>) /\ blo = Each(NoBls) /\ wlst = Each(NoWls) /\ lastReload = -1
         /\ adm = Each(<<>>) /\ refs = Each(<<>>)
 
 Up(f, i, v) == [f EXCEPT ![i] = v]
@@ -87,11 +96,21 @@ NotBanned(i, q) ==
        IN {V("BanHolds", (IF o.perm THEN "perm" ELSE "temp") \o ":" \o Cause(i, o))}
 
 \* ---- blacklist clause ------------------------------------------------------------------------
+\* history shape of a blacklist violation: the lazy removal ran after the order ("lateUnbl"); the
+\* manager was re-created from storage after the order ("afterReload"); an order for the other
+\* entry form has run out by now ("shadowed": its expired entry is found first); none ("plain")
+BlCause(i, f, b, q) ==
+  LET o == blo[i][IF f = "ip" THEN "net" ELSE "ip"] IN
+  IF \E x \in 1..Len(aL[i]) : aL[i][x] + cfg.aTol >= b.born THEN "lateUnbl"
+  ELSE IF lastReload >= b.born THEN "afterReload"
+  ELSE IF o.k = "temp" /\ q.t1 >= o.end THEN "shadowed"
+  ELSE "plain"
+Whitelisted(i) == \E f \in FORMS : wlst[i][f]
 NotBlacklisted(i, q) ==
-  LET b == blo[i] IN
-  IF ~wlst[i] /\ b.k # "none" /\ b.from <= q.t0 /\ (b.k = "perm" \/ q.t1 <= b.to)
-  THEN {V("BlacklistHolds", b.k \o ":" \o (IF \E x \in 1..Len(aL[i]) : aL[i][x] + cfg.aTol >= b.born THEN "lateUnbl" ELSE "plain") \o ":" \o cfg.var)}
-  ELSE {}
+  LET bind == {f \in FORMS : blo[i][f].k # "none" /\ blo[i][f].from <= q.t0 /\ (blo[i][f].k = "perm" \/ q.t1 <= blo[i][f].to)} IN
+  IF Whitelisted(i) \/ bind = {} THEN {}
+  ELSE LET f == IF "net" \in bind THEN "net" ELSE "ip"  b == blo[i][f]
+       IN {V("BlacklistHolds", b.k \o ":" \o BlCause(i, f, b, q) \o ":" \o f)}
 
 \* ---- rate clause -----------------------------------------------------------------------------
 \* An admission logged with call bracket [t0, t1] took its token somewhere inside the bracket
@@ -118,7 +137,7 @@ EndViol == UNION {(IF \A x \in 1..Len(refs[i]) : Justified(i, refs[i][x]) THEN {
 
 \* ---- events ----------------------------------------------------------------------------------
 TrCfg == /\ Is("Cfg") /\ cfg' = Ev /\ l' = l + 1
-         /\ UNCHANGED <<viol, fs, sf, lastSucc, lastMU, lastClean, ob, aU, aL, blo, wlst, adm, refs>>
+         /\ UNCHANGED <<viol, fs, sf, lastSucc, lastMU, lastClean, ob, aU, aL, blo, wlst, lastReload, adm, refs>>
 
 TrHs ==
   /\ Is("Hs")
@@ -145,40 +164,56 @@ TrHs ==
         /\ lastSucc' = IF r = "ok" THEN Up(lastSucc, i, q.t1) ELSE lastSucc
         /\ adm' = Up(adm, i, a2)
         /\ refs' = IF r = "ban" THEN Up(refs, i, Append(refs[i], q)) ELSE refs
-  /\ l' = l + 1 /\ UNCHANGED <<cfg, lastMU, lastClean, aU, aL, blo, wlst>>
+  /\ l' = l + 1 /\ UNCHANGED <<cfg, lastMU, lastClean, aU, aL, blo, wlst, lastReload>>
 
 TrQuery ==
   /\ Is("Query")
   /\ LET i == Ev.ip  q == Iv IN
      /\ viol' = viol \cup (IF ~Ev.bl THEN NotBlacklisted(i, q) ELSE {}) \cup (IF ~Ev.ban THEN NotBanned(i, q) ELSE {})
      /\ refs' = IF Ev.ban THEN Up(refs, i, Append(refs[i], q)) ELSE refs
-  /\ l' = l + 1 /\ UNCHANGED <<cfg, fs, sf, lastSucc, lastMU, lastClean, ob, aU, aL, blo, wlst, adm>>
+  /\ l' = l + 1 /\ UNCHANGED <<cfg, fs, sf, lastSucc, lastMU, lastClean, ob, aU, aL, blo, wlst, lastReload, adm>>
 
 TrTake ==
   /\ Is("Take")
   /\ adm' = IF Ev.ok THEN Up(adm, Ev.ip, Append(adm[Ev.ip], [t0 |-> Ev.t0, t1 |-> Ev.t1, how |-> "allowIP"])) ELSE adm
-  /\ l' = l + 1 /\ UNCHANGED <<viol, cfg, fs, sf, lastSucc, lastMU, lastClean, ob, aU, aL, blo, wlst, refs>>
+  /\ l' = l + 1 /\ UNCHANGED <<viol, cfg, fs, sf, lastSucc, lastMU, lastClean, ob, aU, aL, blo, wlst, lastReload, refs>>
 
 TrAsync ==
   /\ Is("Async")
   /\ aU' = IF Ev.what = "unban" THEN Up(aU, Ev.ip, Append(aU[Ev.ip], Ev.t1)) ELSE aU
   /\ aL' = IF Ev.what = "unbl"  THEN Up(aL, Ev.ip, Append(aL[Ev.ip], Ev.t1)) ELSE aL
-  /\ l' = l + 1 /\ UNCHANGED <<viol, cfg, fs, sf, lastSucc, lastMU, lastClean, ob, blo, wlst, adm, refs>>
+  /\ l' = l + 1 /\ UNCHANGED <<viol, cfg, fs, sf, lastSucc, lastMU, lastClean, ob, blo, wlst, lastReload, adm, refs>>
 
 TrMUnban == /\ Is("MUnban") /\ ob' = Up(ob, Ev.ip, {}) /\ lastMU' = Up(lastMU, Ev.ip, Ev.t1)
-            /\ l' = l + 1 /\ UNCHANGED <<viol, cfg, fs, sf, lastSucc, lastClean, aU, aL, blo, wlst, adm, refs>>
+            /\ l' = l + 1 /\ UNCHANGED <<viol, cfg, fs, sf, lastSucc, lastClean, aU, aL, blo, wlst, lastReload, adm, refs>>
 
 TrBlk == /\ Is("Blk")
-         /\ blo' = Up(blo, Ev.ip, [k |-> IF Ev.perm THEN "perm" ELSE "temp", from |-> Ev.t1 + cfg.mS,
-                                   to |-> Ev.t0 + cfg.bld - cfg.mE, born |-> Ev.t1])
-         /\ l' = l + 1 /\ UNCHANGED <<viol, cfg, fs, sf, lastSucc, lastMU, lastClean, ob, aU, aL, wlst, adm, refs>>
+         /\ blo' = IF Ev.form \in FORMS
+                   THEN Up(blo, Ev.ip, [blo[Ev.ip] EXCEPT ![Ev.form] =
+                              [k |-> IF Ev.perm THEN "perm" ELSE "temp", from |-> Ev.t1 + cfg.mS,
+                               to |-> Ev.t0 + cfg.bld - cfg.mE, born |-> Ev.t1, end |-> Ev.t1 + cfg.bld]])
+                   ELSE blo
+         /\ l' = l + 1 /\ UNCHANGED <<viol, cfg, fs, sf, lastSucc, lastMU, lastClean, ob, aU, aL, wlst, lastReload, adm, refs>>
 
-TrMUnbl == /\ Is("MUnbl") /\ blo' = Up(blo, Ev.ip, NoBl)
-           /\ l' = l + 1 /\ UNCHANGED <<viol, cfg, fs, sf, lastSucc, lastMU, lastClean, ob, aU, aL, wlst, adm, refs>>
+TrMUnbl == /\ Is("MUnbl")
+           /\ blo' = IF Ev.form \in FORMS THEN Up(blo, Ev.ip, [blo[Ev.ip] EXCEPT ![Ev.form] = NoBl]) ELSE blo
+           /\ l' = l + 1 /\ UNCHANGED <<viol, cfg, fs, sf, lastSucc, lastMU, lastClean, ob, aU, aL, wlst, lastReload, adm, refs>>
 
-TrWl == /\ Is("Wl") /\ wlst' = Up(wlst, Ev.ip, Ev.on)
-        /\ blo' = IF ~Ev.on /\ blo[Ev.ip].from < Ev.t1 + cfg.mS THEN Up(blo, Ev.ip, [blo[Ev.ip] EXCEPT !.from = Ev.t1 + cfg.mS]) ELSE blo
-        /\ l' = l + 1 /\ UNCHANGED <<viol, cfg, fs, sf, lastSucc, lastMU, lastClean, ob, aU, aL, adm, refs>>
+\* whitelisting (either form) suspends the demand; when the last whitelist entry goes, it resumes for
+\* calls that begin after the removal returned
+TrWl == /\ Is("Wl")
+        /\ LET w2 == IF Ev.form \in FORMS THEN [wlst[Ev.ip] EXCEPT ![Ev.form] = Ev.on] ELSE wlst[Ev.ip]
+               resumed == ~Ev.on /\ ~(\E f \in FORMS : w2[f])
+           IN /\ wlst' = Up(wlst, Ev.ip, w2)
+              /\ blo' = IF resumed
+                        THEN Up(blo, Ev.ip, [f \in FORMS |-> IF blo[Ev.ip][f].from < Ev.t1 + cfg.mS
+                                                              THEN [blo[Ev.ip][f] EXCEPT !.from = Ev.t1 + cfg.mS] ELSE blo[Ev.ip][f]])
+                        ELSE blo
+        /\ l' = l + 1 /\ UNCHANGED <<viol, cfg, fs, sf, lastSucc, lastMU, lastClean, ob, aU, aL, lastReload, adm, refs>>
+
+\* the demands outlive the manager instance: nothing changes but the history shape
+TrReload == /\ Is("Reload") /\ lastReload' = Ev.t1
+            /\ l' = l + 1 /\ UNCHANGED <<viol, cfg, fs, sf, lastSucc, lastMU, lastClean, ob, aU, aL, blo, wlst, adm, refs>>
 
 \* a clean-up run of the protector drops a failure record whose window is empty - and with it the
 \* lifetime count: unless some counted failure is certainly still inside the window, forget them
@@ -188,14 +223,14 @@ TrClean ==
            THEN [i \in IPS |-> IF \E x \in 1..Len(sf[i]) : Ev.t1 - sf[i][x].t0 < cfg.win - cfg.mE THEN sf[i] ELSE <<>>]
            ELSE sf
   /\ lastClean' = IF Ev.what = "bf" THEN Each(Ev.t1) ELSE lastClean
-  /\ l' = l + 1 /\ UNCHANGED <<viol, cfg, fs, lastSucc, lastMU, ob, aU, aL, blo, wlst, adm, refs>>
+  /\ l' = l + 1 /\ UNCHANGED <<viol, cfg, fs, lastSucc, lastMU, ob, aU, aL, blo, wlst, lastReload, adm, refs>>
 
-TrTick == Is("Tick") /\ l' = l + 1 /\ UNCHANGED <<viol, cfg, fs, sf, lastSucc, lastMU, lastClean, ob, aU, aL, blo, wlst, adm, refs>>
+TrTick == Is("Tick") /\ l' = l + 1 /\ UNCHANGED <<viol, cfg, fs, sf, lastSucc, lastMU, lastClean, ob, aU, aL, blo, wlst, lastReload, adm, refs>>
 
 TrEnd == /\ Is("End")
          /\ PrintT("VERDICT " \o ToJson([tr |-> Ev.tr, viol |-> SetToSeq(viol \cup (IF cfg = NoCfg THEN {} ELSE EndViol))]))
          /\ l' = l + 1 /\ viol' = {} /\ Reset
 
-Next == TrCfg \/ TrHs \/ TrQuery \/ TrTake \/ TrAsync \/ TrMUnban \/ TrBlk \/ TrMUnbl \/ TrWl \/ TrClean \/ TrTick \/ TrEnd
+Next == TrReload \/ TrCfg \/ TrHs \/ TrQuery \/ TrTake \/ TrAsync \/ TrMUnban \/ TrBlk \/ TrMUnbl \/ TrWl \/ TrClean \/ TrTick \/ TrEnd
 Spec == Init /\ [][Next]_vars
 =============================================================================
